@@ -16,8 +16,10 @@ WRITES = {"wmG", "wmT", "we", "ws", "wx", "wf"}
 SBOM_FORMATS = ["cdx", "spdx", "syft"]
 ENV_POOL = [("all", "append", b"PATH", b"/x"), ("all", "delim", b"PATH", b":"), ("build", "override", b"CC", b"gcc"), ("launch", "default", b"PORT", b"8080"),
             ("process:web", "override", b"ROLE", b"web"), ("process:worker", "prepend", b"ROLE", b"w"), ("launch", "prepend", b"LD_LIBRARY_PATH", b"/l"),
-            ("all", "override", b"EMPTY", b"")]
-MD_GENERIC = [{"v": "1"}, {}, {"name": "x", "n": 3, "flag": True, "nested": {"k": ["a", "b"]}}, {"version": 7}, {"Version": "caps"}]
+            ("all", "override", b"EMPTY", b""), ("build", "override", b"RAW", b"\xff\xfe\x00\x80"), ("process:web", "append", b"RAWP", b"caf\xe9")]
+MD_GENERIC = [{"v": "1"}, {}, {"name": "x", "n": 3, "flag": True, "nested": {"k": ["a", "b"]}}, {"version": 7}, {"Version": "caps"},
+              # parses as the typed metadata (extra keys are allowed there) - a kept layer must still keep every value
+              {"version": "1.0", "extra": "keep-me", "nested": {"k": [1, 2]}, "build_id": 42}]
 MD_KEYS8 = {"k%d" % i: "v%d" % i for i in range(9)}
 
 
@@ -185,7 +187,10 @@ def judge_request(step, rep, pre, post, names, sh, case):
     else:
         outcome = ("empty", "newly") if not v0["dir_present"] else ("empty", None)
         want_cbs, md_after = [], None
-    got_cbs = [{k: v for k, v in c.items() if k != "path"} for c in rep.get("callbacks", [])]
+    def norm_cb(c):      # key order inside metadata tables is irrelevant
+        return {"cb": c["cb"], "metadata": None if c.get("metadata") is None else tomlw.untagged(c["metadata"])}
+    got_cbs = [norm_cb(c) for c in rep.get("callbacks", [])]
+    want_cbs = [norm_cb(c) for c in want_cbs]
     if not check_others(pre, post, names, nm, sh, case, what):
         return None
     if "err" in rep:
@@ -339,7 +344,7 @@ def jsonable(steps):
     for s in steps:
         s = dict(s)
         if s["op"] == "write_env":
-            s["entries"] = [[a, b, c.decode(), d.decode()] for a, b, c, d in s["entries"]]
+            s["entries"] = [[a, b, c.decode("latin-1"), d.decode("latin-1")] for a, b, c, d in s["entries"]]
         out.append(s)
     return out
 
@@ -349,7 +354,7 @@ def unjson(steps):
     for s in steps:
         s = dict(s)
         if s["op"] == "write_env":
-            s["entries"] = [(a, b, c.encode(), d.encode()) for a, b, c, d in s["entries"]]
+            s["entries"] = [(a, b, c.encode("latin-1"), d.encode("latin-1")) for a, b, c, d in s["entries"]]
         out.append(s)
     return out
 
